@@ -419,7 +419,7 @@ def _depends_on_outcome(e: ast.AST, fi: FuncInfo, cfg: CFG, at: Node, depth: int
             return True
         if isinstance(x, ast.Name) and x.id in ("choice", "outcome", "result"):
             return True
-    if depth < 3:
+    if depth < 6:
         for x in ast.walk(e):
             if isinstance(x, ast.Name) and isinstance(x.ctx, ast.Load):
                 # element stores `x[...] = <outcome>` make x outcome-dependent (flow-insensitive, may-dependence)
@@ -429,6 +429,12 @@ def _depends_on_outcome(e: ast.AST, fi: FuncInfo, cfg: CFG, at: Node, depth: int
                             return True
                 for d in cfg.reaching_defs(at, x.id):
                     if d is cfg.entry or not isinstance(d.ast, ast.Assign):
+                        continue
+                    if _depends_on_outcome(d.ast.value, fi, cfg, d, depth + 1):
+                        return True
+            if isinstance(x, ast.Attribute) and isinstance(x.ctx, ast.Load) and isinstance(x.value, ast.Name) and x.value.id == "self" and x.attr == "state":
+                for d in cfg.reaching_defs(at, "@self.state"):
+                    if d is cfg.entry or not isinstance(d.ast, (ast.Assign, ast.AugAssign)):
                         continue
                     if _depends_on_outcome(d.ast.value, fi, cfg, d, depth + 1):
                         return True
@@ -495,6 +501,36 @@ def collapse(repo: Repo) -> List[Ob]:
                                    f"the state written to `{src(t.value)}` after the measurement (`{src(v)[:50]}`) does not depend on any drawn outcome: it is the unconditioned marginal of the *pre-measurement* state, not the projection on the outcome"))
     if sites < 8:
         raise AnalysisError(f"COLLAPSE: {sites} member-state writes in Envelope.measure (floor 8)")
+    # Envelope.measure_POVM: the member that survives a one-member POVM is reduced from the *post-measurement* state
+    mp = repo.func("Envelope.measure_POVM")
+    cfgp = CFG(mp.node)
+    kk = 0
+    for n in cfgp.nodes:
+        a = n.ast
+        if n.kind == "stmt" and isinstance(a, ast.Assign):
+            for t in a.targets:
+                if isinstance(t, ast.Attribute) and t.attr == "state" and src(t.value) != "self":
+                    kk += 1
+                    cond = _depends_on_outcome(a.value, mp, cfgp, n)
+                    (obs.append(ok("COLLAPSE", mp, f"povm-survivor#{kk}", ("C09", "C05"), a, "survivor is reduced from the post-measurement state")) if cond else
+                     obs.append(bad("COLLAPSE", mp, f"povm-survivor#{kk}", ("C09", "C05"), a,
+                                    f"`{src(t)}` is reduced from a tensor that does not depend on the drawn outcome (the pre-measurement state): the surviving member ignores the measurement result")))
+    if kk < 1:
+        raise AnalysisError("COLLAPSE: survivor write of Envelope.measure_POVM not found")
+    # every POVM post-state is built from operators[<drawn outcome>]
+    for q in POVM:
+        f2 = repo.func(q)
+        c2 = CFG(f2.node)
+        j = 0
+        for n in c2.nodes:
+            a = n.ast
+            if n.kind == "stmt" and isinstance(a, ast.Assign) and any(src(t) == "self.state" for t in a.targets):
+                if not any(call_np(x) in ("einsum", "matmul") for x in ast.walk(a.value)):
+                    continue
+                j += 1
+                cond = _depends_on_outcome(a.value, f2, c2, n)
+                (obs.append(ok("COLLAPSE", f2, f"povm-post-state#{j}", ("C09",), a, "post-measurement state uses the operator of the drawn outcome")) if cond else
+                 obs.append(bad("COLLAPSE", f2, f"povm-post-state#{j}", ("C09",), a, "the post-measurement state does not depend on the drawn outcome")))
     # ProductState.measure: remaining tensor sliced by the outcome, then normalised
     ps = repo.func("ProductState.measure")
     cfg, lv = self_levels(ps)
@@ -625,7 +661,7 @@ def measure_set(repo: Repo) -> List[Ob]:
 def pair(repo: Repo) -> List[Ob]:
     """tensor order and bookkeeping order are the same order"""
     obs: List[Ob] = []
-    P = ("C02",)
+    P = ("C02", "C03")
     n_pairs = 0
     # Envelope.combine: kron(fock, polarization) with fock.extract(0), polarization.extract(1)
     fi = repo.func("Envelope.combine")
